@@ -26,6 +26,7 @@ type runResult struct {
 	gerrs         []string // errors caught inside script goroutines, sorted
 	outs          []interface{}
 	stuck         string // "" | "deadlock" | "deadline"
+	runaway       bool   // a receive loop iterated more often than the specification allows
 	hostPanic     string
 	hostPanicNorm string
 	quiesced      bool
@@ -77,7 +78,10 @@ func deadlocked() bool {
 }
 
 // runOnce executes src in a fresh environment.
-func runOnce(src string, deadline time.Duration) *runResult {
+// tickLimit bounds the number of tick() calls: every receive loop of a generated
+// program calls tick() once per iteration, and the specification bounds the number
+// of iterations, so more calls mean a loop that runs without messages.
+func runOnce(src string, deadline time.Duration, tickLimit int64) *runResult {
 	r := &runResult{src: src}
 	base := runtime.NumGoroutine()
 	ctx, cancel := context.WithTimeout(context.Background(), deadline)
@@ -91,6 +95,13 @@ func runOnce(src string, deadline time.Duration) *runResult {
 	e.Define("yield", func(j int64) {
 		for ; j > 0; j-- {
 			runtime.Gosched()
+		}
+	})
+	var ticks, runaway int64
+	e.Define("tick", func() {
+		if atomic.AddInt64(&ticks, 1) > tickLimit {
+			atomic.StoreInt64(&runaway, 1)
+			cancel()
 		}
 	})
 	e.Define("out", func(v interface{}) {
@@ -170,6 +181,8 @@ func runOnce(src string, deadline time.Duration) *runResult {
 		r.hostPanicNorm = ank.NormPanic(hp.Value)
 	} else if err != nil {
 		switch {
+		case atomic.LoadInt64(&runaway) == 1:
+			r.runaway = true
 		case len(r.gerrs) > 0:
 			// cancelled by gerr: the goroutine error is what gets reported
 		case atomic.LoadInt32(&dead) == 1:
